@@ -330,7 +330,7 @@ pub fn canonical_name_cmp(a: &[u8], b: &[u8]) -> Ordering {
 #[derive(Debug, Clone, PartialEq, Eq)]
 pub struct RdataErr(pub &'static str);
 
-fn valid_bitmap(b: &[u8]) -> bool {
+pub fn valid_bitmap(b: &[u8]) -> bool {
     let mut p = 0;
     let mut last: i32 = -1;
     while p < b.len() {
